@@ -109,6 +109,10 @@ PLAIN = ['cosine', 'corr', 'rho-a']
 WHITE = ['cosine_cov', 'corr_cov']
 ORDER = ['cosine', 'corr', 'cosine_cov', 'corr_cov']
 ALL = PLAIN + WHITE
+# rank-pooled measures the ceiling routines also accept: structure only (leave-one-group-out, the pooled RDM
+# scores the upper bound, NaN handling, arguments unchanged), no optimality / ordering demanded
+RANKS = ['spearman', 'kendall', 'tau-b', 'tau-a']
+REFD = PLAIN + RANKS        # measures with a reference pooled RDM and reference bounds
 TRANSFORMS = {'cosine': [(0.5, 0.0), (3.0, 0.0)],
               'corr': [(0.5, 0.0), (3.0, 0.0), (1.0, 1.0), (3.0, 1.0), (0.5, 1.0)]}
 UNDEF = 'measure undefined for a data RDM (zero norm / constant / < 3 entries)'
@@ -294,6 +298,10 @@ def shards(tier, seed):
     for op in SEQ_OPS:
         for n_rdm in (2, 3, 4):
             out.append({'kind': 'SEQ', 'op': op, 'n_rdm': n_rdm})
+    # RK: the other measures the ceiling routines accept (spearman, kendall, tau-b, tau-a; euclid /
+    # neg_riem_dist for pool_rdm): structure only; pool_rdm of both modules against the reference pool
+    for part in ('A0', 'A1', 'A2', 'fill2', 'fill3', 'fill4', 'cv2', 'cv3', 'cv4', 'pool'):
+        out.append({'kind': 'RK', 'part': part})
     return out
 
 
@@ -371,8 +379,90 @@ def run_shard(shard, ctx):
         _shard_kf(shard, ctx)
     elif kind == 'SEQ':
         _shard_seq(shard, ctx)
+    elif kind == 'RK':
+        _shard_rk(shard, ctx)
     else:
         raise ValueError(kind)
+
+
+POOL_METHODS = {'inference_util': ALL + RANKS + ['euclid', 'neg_riem_dist', 'no-such-measure'],
+                'pooling': PLAIN + RANKS + ['euclid', 'no-such-measure']}
+
+
+def _shard_rk(shard, ctx):
+    part = shard['part']
+    thorough = ctx.tier == 'thorough'
+    styles = [0, 2] if not thorough else [0, 2, 1]
+    if part[0] == 'A':
+        # every ordered pair over {0,1,2}^3 (all tie patterns), default grouping
+        V = _alpha('012^3')
+        for i in range(int(part[1]) * 9, int(part[1]) * 9 + 9):
+            for b in V:
+                for m in RANKS:
+                    run_case({'kind': 'boot', 'data': [V[i].tolist(), b.tolist()], 'n_cond': 3, 'mask': [],
+                              'labels': None, 'method': m, 'cands': None}, ctx)
+    elif part.startswith('fill'):
+        n_rdm = int(part[4])
+        for n_cond in (3, 4):
+            L = n_cond * (n_cond - 1) // 2
+            masks = [[]] if n_cond == 3 else [[], [1], [0, 4]]
+            for style in styles:
+                fill = {'n_rdm': n_rdm, 'L': L, 'key': 0, 'style': style}
+                for rgs, tag, labels in [(None, 'index', None)] + [x for x in _labelings(n_rdm, False)
+                                                                   if x[1] == 'desc']:
+                    for mask in masks:
+                        for m in RANKS:
+                            run_case({'kind': 'boot', 'fill': fill, 'n_cond': n_cond, 'mask': mask,
+                                      'labels': labels, 'method': m, 'cands': None}, ctx)
+                    if labels is not None and len(set(labels)) < 2:
+                        continue
+                    for m in RANKS + ['euclid']:
+                        # the left-out group's data changed (every entry: stacks of 3; all at once: always)
+                        run_case({'kind': 'leak', 'fill': fill, 'n_cond': n_cond, 'mask': masks[-1],
+                                  'labels': labels, 'method': m, 'each_entry': n_rdm == 3 and labels is None,
+                                  'public_only': m == 'euclid'}, ctx)
+    elif part.startswith('cv'):
+        n_rdm = int(part[2])
+        for style in styles:
+            for rgs, tag, labels in [x for x in _labelings(n_rdm, False) if x[1] == 'desc']:
+                n_groups = len(set(labels))
+                todo = []
+                for n_cond, mask in ((4, []), (4, [2])):
+                    if n_groups >= 2:
+                        todo.append(('loo_rdm', n_cond, mask, {}))
+                        todo.append(('k_fold_rdm', n_cond, mask, {'k_rdm': 2}))
+                if n_groups >= 2:
+                    todo.append(('k_fold', 6, [], {'k_rdm': 2, 'k_pattern': 2}))
+                    todo.append(('k_fold', 6, [], {'k_rdm': n_groups, 'k_pattern': 1}))
+                if n_groups == n_rdm:
+                    todo.append(('k_fold_pattern', 7, [], {'k': 2}))
+                    todo.append(('loo_pattern', 6, [], {'cgrp': [5, 3, 5, 3, 3, 5]}))
+                for gen, n_cond, mask, params in todo:
+                    fill = {'n_rdm': n_rdm, 'L': n_cond * (n_cond - 1) // 2, 'key': 0, 'style': style}
+                    for m in RANKS:
+                        case = {'kind': 'cv', 'gen': gen, 'fill': fill, 'n_cond': n_cond, 'mask': mask,
+                                'labels': labels, 'params': params, 'random': False, 'method': m,
+                                'per_fold': gen == 'k_fold'}
+                        _cv_exec(case, Env([]), ctx)
+                        if gen in ('loo_rdm', 'k_fold') and not len(mask) and m == RANKS[n_groups % 4]:
+                            _cv_exec(dict(case, via='crossval', per_fold=False), Env([]), ctx)
+    elif part == 'pool':
+        V = _alpha('012^3')
+        for module, methods in sorted(POOL_METHODS.items()):
+            for m in methods:
+                for i in range(0, 27, 2):
+                    for j in sorted({i, (5 * i + 3) % 27, (11 * i + 7) % 27}):
+                        run_case({'kind': 'pool', 'module': module, 'method': m, 'n_cond': 3, 'mask': [],
+                                  'data': [V[i].tolist(), V[j].tolist()]}, ctx)
+                for n_rdm in (2, 3, 4):
+                    for n_cond in (3, 4):
+                        for style in styles:
+                            for mask in ([[]] if n_cond == 3 else [[], [1], [0, 4]]):
+                                run_case({'kind': 'pool', 'module': module, 'method': m, 'n_cond': n_cond,
+                                          'mask': mask, 'fill': {'n_rdm': n_rdm, 'L': n_cond * (n_cond - 1) // 2,
+                                                                 'key': 0, 'style': style}}, ctx)
+    else:
+        raise ValueError(part)
 
 
 def _shard_kf(shard, ctx):
@@ -478,6 +568,8 @@ def run_case(case, ctx):
         _cv_exec(case, Env(case.get('choices', [])), ctx)
     elif kind == 'seq':
         _case_seq(case, ctx)
+    elif kind == 'pool':
+        _case_pool(case, ctx)
     else:
         raise ValueError(kind)
 
@@ -502,7 +594,7 @@ def _case_boot(case, ctx):
     # ---- what the reference says (None = undefined for this input -> excluded and counted)
     want_lo = want_up = None
     order = False
-    if method in PLAIN:
+    if method in REFD:
         want_lo, info = R.lower_bound(method, stack, ref_labels)
         if want_lo is None:
             ctx.exclude('lower bound: ' + info)
@@ -510,7 +602,7 @@ def _case_boot(case, ctx):
             want_up = R.upper_bound(method, stack)
             if want_up is None:
                 ctx.exclude('upper bound: pooled RDM of all data undefined (direction vanishes)')
-            elif not close(want_up, R.max_score(method, stack), TOL):
+            elif method in PLAIN and not close(want_up, R.max_score(method, stack), TOL):
                 # the two reference routes disagree: oracle problem, not a library defect
                 raise AssertionError('reference pooled score %.12g != closed-form optimum %.12g'
                                      % (want_up, R.max_score(method, stack)))
@@ -540,9 +632,11 @@ def _case_boot(case, ctx):
         if want_up is not None:
             ctx.dev('upper/' + method, reldev(up, want_up))
             if not close(up, want_up, TOL):
-                ctx.fail(sigp + '|upper!=best-achievable', case,
-                         'upper bound %.12g, highest achievable average similarity %.12g; '
-                         'data=%s mask=%s' % (up, want_up, full.tolist(), list(mask)))
+                ctx.fail(sigp + ('|upper!=best-achievable' if method in PLAIN else '|upper!=score-of-pooled-rdm'), case,
+                         'upper bound %.12g, %s %.12g; data=%s mask=%s' % (
+                             up, 'highest achievable average similarity' if method in PLAIN else
+                             'average similarity of the data RDMs to the mean of their tie-averaged ranks',
+                             want_up, full.tolist(), list(mask)))
             if case.get('cands'):
                 _candidates(case, ctx, rdms, full, stack, mask, method, up, sigp)
         if order:
@@ -735,6 +829,68 @@ def _case_seq(case, ctx):
                                                                      full.tolist()))
 
 
+def _case_pool(case, ctx):
+    """pool_rdm (util.inference_util = what the ceilings use; util.pooling = what the fitters use) against the
+    reference pool: missing entries stay missing, the argument is unchanged, and the pooled RDM is worth what
+    the reference pool is worth (plain mean itself for euclid / neg_riem_dist); unknown measures are refused"""
+    import importlib
+    method, mask, module = case['method'], case['mask'], case['module']
+    pool = importlib.import_module('rsatoolbox.util.' + module).pool_rdm
+    full = _data(case, ctx.seed)
+    L = full.shape[1]
+    stack = R.delete_entries(full.tolist(), mask)
+    present = [k for k in range(L) if k not in set(mask)]
+    sigp = 'pool_rdm|module=%s,method=%s,nan=%d' % (module, method, 1 if len(mask) else 0)
+    rdms = _rdms(_masked(full, mask))
+    if method == 'no-such-measure':
+        try:
+            pool(rdms, method=method)
+        except ValueError:
+            ctx.case(case)
+            ctx.outcome('refused')
+        else:
+            ctx.case(case)
+            ctx.fail(sigp + '|unknown-measure-accepted', case, 'pool_rdm returned a pooled RDM for method %r' % method)
+        return
+    plain_mean = method in ('euclid', 'neg_riem_dist')
+    base = 'euclid' if plain_mean else (method if method in REFD else ('corr' if 'corr' in method else 'cosine'))
+    if not _defined(base, stack):
+        ctx.exclude(UNDEF)
+        return
+    ref_p = R.pooled(base, stack)
+    want = None
+    if ref_p is not None and not plain_mean:
+        want = R.mean_sim(base, ref_p, stack)
+    if ref_p is None or (want is None and not plain_mean):
+        ctx.exclude('pool: pooled RDM of all data undefined (direction vanishes)')
+        return
+    with ctx.guard(sigp, case):
+        with _Unchanged(ctx, 'pool_rdm|module=%s,method=%s' % (module, method), case, rdms=rdms):
+            out = pool(rdms, method=method)
+        vec = np.asarray(out.get_vectors(), dtype=float)
+        ctx.case(case)
+        if vec.shape != (1, L):
+            ctx.fail(sigp + '|shape', case, 'pooled RDM has vectors of shape %r' % (vec.shape,))
+            return
+        vec = vec[0]
+        if sorted(np.flatnonzero(np.isnan(vec)).tolist()) != sorted(mask):
+            ctx.fail(sigp + '|missing-entries', case, 'pooled RDM is missing entries %s, the data %s; data=%s' % (
+                np.flatnonzero(np.isnan(vec)).tolist(), sorted(mask), full.tolist()))
+            return
+        got_p = vec[present].tolist()
+        ctx.outcome([round(v, 9) for v in got_p])
+        if plain_mean:
+            if not all(close(a, b, TOL) for a, b in zip(got_p, ref_p)):
+                ctx.fail(sigp + '|pooled!=mean', case, 'pooled %s, mean of the data RDMs %s; data=%s' % (
+                    got_p, ref_p, full.tolist()))
+            return
+        got = R.mean_sim(base, got_p, stack)
+        if got is None or not close(got, want, TOL):
+            ctx.fail(sigp + '|pooled-rdm-not-equivalent-to-reference-pool', case,
+                     'pooled %s scores %r on the data (reference measure), the reference pool %s scores %.12g; '
+                     'data=%s mask=%s' % (got_p, got, ref_p, want, full.tolist(), list(mask)))
+
+
 @contextlib.contextmanager
 def _record_pooling():
     """record every pooling call made by inference.noise_ceiling (harness-side attribute
@@ -804,7 +960,7 @@ def _case_leak(case, ctx):
     with ctx.guard('leave-one-group-out|' + cfg, case):
         x0 = _masked(full, mask)
         pub0 = _public_predictions(x0, labels, method)
-        rec0 = _recorded_predictions(x0, labels, method)
+        rec0 = {} if case.get('public_only') else _recorded_predictions(x0, labels, method)
         all_rids = set(range(n_rdm))
         for g, members in groups.items():
             left = tuple(sorted(members))
@@ -1039,7 +1195,7 @@ def _cv_exec(case, env, ctx):
                 if len(sub[0]) < 3 or not _defined(method, sub):
                     ctx.exclude('cv: ' + UNDEF)
                     return
-                base = method if method in PLAIN else ('corr' if 'corr' in method else 'cosine')
+                base = method if method in REFD else ('corr' if 'corr' in method else 'cosine')
                 want_lo, info = R.lower_bound(base, sub)
                 want_up = R.upper_bound(base, sub)
                 if want_lo is None or want_up is None:
@@ -1055,7 +1211,7 @@ def _cv_exec(case, env, ctx):
                 return
             for i, (want_lo, want_up) in enumerate(wants):
                 lo, up = float(nc[0, i]), float(nc[1, i])
-                if method in PLAIN:
+                if method in REFD:
                     ctx.dev('cv-lower/' + method, reldev(lo, want_lo))
                     ctx.dev('cv-upper/' + method, reldev(up, want_up))
                     if not close(lo, want_lo, TOL):
@@ -1076,7 +1232,7 @@ def _cv_exec(case, env, ctx):
                         i, lo, up, full.tolist()))
                     break
             return
-        want, info = R.cv_lower(method if method in PLAIN else ('corr' if 'corr' in method else 'cosine'),
+        want, info = R.cv_lower(method if method in REFD else ('corr' if 'corr' in method else 'cosine'),
                                 full.tolist(), n_cond, folds, mask)
         if want is None:
             ctx.exclude('cv lower bound: ' + str(info))
@@ -1095,7 +1251,7 @@ def _cv_exec(case, env, ctx):
         lo, up = float(lo), float(up)
         ctx.case(done)
         ctx.outcome((round(lo, 9), round(up, 9)))
-        if method in PLAIN:
+        if method in REFD:
             ctx.dev('cv-lower/' + method, reldev(lo, want))
             if not close(lo, want, TOL):
                 ctx.fail(sigp + '|lower!=train-pool-at-test-conditions', done,
